@@ -272,7 +272,9 @@ func (ch *c08Child) render(c *c08Cfg) string {
 	}
 	out := text.String()
 	if c.Parse == "syntax" {
-		out = strings.TrimSuffix(out, "}\n") + "\n"
+		// the closing brace of the last server block is missing (the parser accepts that when the last
+		// token happens to be the "}" of a sub-block, so a plain directive is made the last line)
+		out = strings.TrimSuffix(out, "}\n") + "\theader / X-End 1\n"
 	}
 	return out
 }
@@ -975,6 +977,30 @@ func c08Label(in *c08In, full, ref []c08Obs) string {
 		if mode == "validate" && (stage == "startup" || strings.HasPrefix(stage, "listen")) {
 			stage = "valid"
 		}
+		intended := stage
+		if o.Res == 1 {
+			// name the stage the attempt actually failed in (a stale htpasswd cache can carry an attempt
+			// past the stage its configuration is invalid at)
+			switch ec := c08ErrClass(o); {
+			case ec == "listen":
+				stage = "listen"
+				if len(op.Cfg.Addrs) > 1 {
+					stage = "listen-after-open"
+				}
+			case ec == "startup":
+				stage = "startup"
+			case strings.HasPrefix(ec, "auth"):
+				stage = "htpasswd"
+			}
+			if stage != intended && op.Cfg.Parse == "" {
+				onBefore = false
+				for _, e := range op.Cfg.Effs {
+					if e.K == "on" && e.N > 0 {
+						onBefore = true
+					}
+				}
+			}
+		}
 		if o.Res == 3 || o.Res == 2 {
 			return c08ErrClass(o) + ":" + mode + ":" + stage
 		}
@@ -1030,6 +1056,9 @@ func c08Label(in *c08In, full, ref []c08Obs) string {
 				return "asif:roll"
 			}
 		} else if o.Res == 0 {
+			if stage == "htpasswd" {
+				return "invalid-accepted:htpasswd-cached"
+			}
 			return "invalid-accepted:" + mode + ":" + stage
 		}
 		if o.Res != 0 {
